@@ -1,8 +1,9 @@
 """T08 - MCTS.update, Node.policy_probs and the pure part of MCTS.populate are REGENERATED FROM THE SOURCE
 (gen/MctsGen.v, written by harness/mcts2coq.py against model/PySem.v and model/MctsSem.v) and proved equal to what the
 hand-written model (model/Mcts.v: simulate, policy_inputs) does; clauses of C08 / C09 are transported
-(props/T08.v, proofs/MctsGenEq.v).  MCTS.descend (sampling) and MCTS.analyze_tree (the loop, the time limit) are not
-translated: they stay tied by C08's trace correspondence.
+(props/T08.v, proofs/MctsGenEq.v).  MCTS.descend (sampling), MCTS.analyze_tree (the loop), analyze, get_move,
+select_root_move and tree_probs are translated as well (second part: the tree as a heap of places, oracles with state) and analyze_tree is proved equal,
+end to end, to model/Mcts.v's analyze for time_limit = 0 and simulation_limit > 0.
 
 Correspondence:
 (a) model/MctsSem.v against CPython / torch (the residual trusted base): random small dyadic data, every operation of
@@ -60,7 +61,9 @@ TRUSTED_BASE = [
     "the callees enter as oracles / already modelled functions: network.evaluate, the Dirichlet sample, "
     "tak_ext.solve_policy (C10), math.sqrt / float * / float / int (model/LambdaF64.v for binary64), Position.move and "
     "winner (model/Tak.v, model/Road.v; T01 ties game.py), encoding.decode_move / n_moves_for_size (the id table; C07)",
-    "MCTS.descend and MCTS.analyze_tree are not translated (C08's trace correspondence)",
+    "the search loop is translated over a tree-as-heap (a reference = the child indices from the searched node): this is "
+    "the semantics of the in-place code PROVIDED the Node objects form a tree (no aliasing) - not proved, checked by C08's "
+    "position snapshots and C05; a positive time_limit (the clock oracle) and the stats counters are not covered",
 ]
 ASSUMPTIONS = [
     "gen_populate_expand: 0 < cutoff_prob (otherwise a zero sum of priors gives non-finite child priors, on which "
@@ -202,8 +205,9 @@ Definition m_multi (pol : option (list Q)) : MctsSem.M ost2 Z :=
 Definition m_mono : MctsSem.M ost2 Q := fun s => Ok (0%Q, s).
 Definition m_eval (_ : position) : MctsSem.M ost2 (list Q * Q) :=
   fun s => Ok (fst (next_eval (o_ev s)), mkO (o_ch s) (snd (next_eval (o_ev s))) (o_nz s)).
-Definition m_dir (_ : Z) (_ : option Q) : MctsSem.M ost2 (list Q) :=
-  fun s => match o_nz s with Some l => Ok (l, s) | None => Crash OracleExhausted end.
+(* the Dirichlet stand-in of the harness hands out its known vector cut to the requested length *)
+Definition m_dir (n : Z) (_ : option Q) : MctsSem.M ost2 (list Q) :=
+  fun s => match o_nz s with Some l => Ok (firstn (Z.to_nat n) l, s) | None => Crash OracleExhausted end.
 Fixpoint node_of_py (n : pynode) : node :=
   match n with
   | PyNode p m v0 va sm cp ks =>
@@ -381,7 +385,15 @@ def record_calls(log):
 
 
 def run_spec(spec):
-    """one history of c08 with all recorders; picklable result: the case terms"""
+    """one history of c08 with all recorders; picklable result: the case terms (a history the recorders cannot render -
+    non-finite numbers of a broken implementation - counts as crashed: c08 / c09 report on those)"""
+    try:
+        return _run_spec(spec)
+    except Exception as e:  # noqa
+        return {"update": [], "populate": [], "policy": [], "search": [], "crash": "recorder: " + repr(e)[:200], "spec": spec}
+
+
+def _run_spec(spec):
     import torch
     from tak.model import encoding
     torch.set_num_threads(1)
@@ -460,7 +472,7 @@ def volumes(run):
                 stacked=1)
 
 
-QUICK_TARGET = {"update": 150, "policy": 150, "populate": 120, "search": 40}
+QUICK_TARGET = {"update": 150, "policy": 150, "populate": 120, "search": 20}
 
 
 def balanced(items, target):
@@ -491,7 +503,7 @@ def correspondence(run):
                          "(Q * option (list (Z * list Z)) * option (list Q))", "popchk"),
             "search": ("(Z * Z) * (Z * Z) * position * list phase * list eval * onode", "searchchk")}
     # (a) the semantics library
-    sem = sem_cases(run.rng, 420 if run.quick else 7000)
+    sem = sem_cases(run.rng, 350 if run.quick else 7000)
     cases = {"sem": core.Cases(ID, "sem", HEADER, "semcase", "semchk", shard=(60 if run.quick else 400))}
     for term, meta in sem:
         cases["sem"].add(term, meta)
@@ -501,6 +513,8 @@ def correspondence(run):
     cats = {}
     for fam, (ctype, chk) in fams.items():
         items = [(term, dict(meta, spec=res["spec"], function=fam)) for res in results for term, meta in res[fam]]
+        if fam == "search" and run.quick:      # 5x5 / 6x6 histories only with a handful of simulations (cost grows with the id table)
+            items = [it for it in items if it[1]["spec"]["size"] <= 4 or sum(it[1]["phases"]) <= 10]
         if run.quick:
             items = balanced(items, QUICK_TARGET[fam])
         cats[fam] = Counter(m["cat"] for _, m in items)
